@@ -170,7 +170,9 @@ def judge(stream, packets, trace):
             return fail(f"{desc}: neither packet_good nor packet_bad was reported", signature="no-report")
         if len(mine) > 1:
             kinds = [kind for _, kind in mine]
-            if p["L"] == 0 and not p["aborted"] and kinds.count("good") > 1:
+            if p["L"] == 0 and not p["aborted"] and kinds[0] == "good" and not exp_good:
+                sig = "zlp-bad-crc-reported-good"
+            elif p["L"] == 0 and not p["aborted"] and kinds.count("good") > 1:
                 sig = "zlp-good-repeated"
             elif p["aborted"]:
                 sig = "aborted-packet-reported-twice"
